@@ -193,7 +193,40 @@ def gen_program(rng, name, n_ifaces=None, customs=None, error=None, profile="gen
             h["args"] = [{"name": "x", "ti": intern_type(prog, T.U32)},
                          {"name": "label", "ti": intern_type(prog, T.STRING)}]
             inst["args"] = [{"name": h["name"], "ti": intern_type(prog, T.PT)}]
+    decorate(rng, prog)
     return prog
+
+
+INERT_VARIANT_ATTRS = ['schemars(rename = "Zed{n}")', 'schemars(title = "rename = other")', 'doc = "serde(rename = \\"never\\")"',
+                       'cfg_attr(any(), serde(rename = "never{n}"))', 'schemars(description = "alias = \\"x\\"")']
+
+
+def decorate(rng, prog):
+    """Declaration shapes that change nothing a property speaks about: interface handlers with a default body (the contract
+    still implements them), associated consts and helper methods between the handlers of the contract impl, the two
+    `custom(..)` flags of sv::messages in either order, forwarded attributes that merely *look* like serde renames."""
+    n = 0
+    for part in prog["parts"]:
+        for h in part["handlers"]:
+            if part["id"] != "c" and h["kind"] in KINDS_ENUM and rng.random() < 0.25:
+                h["provided"] = True
+            if h["kind"] in KINDS_ENUM and rng.random() < 0.12:
+                n += 1
+                h.setdefault("sv_attrs", []).append(rng.choice(INERT_VARIANT_ATTRS).replace("{n}", str(n)))
+                if rng.random() < 0.5:
+                    h["sv_attrs_above"] = len(h["sv_attrs"])
+        if part["id"] != "c" and rng.random() < 0.5:
+            part["custom_flags_reversed"] = True
+        if part["id"] != "c" and rng.random() < 0.3:
+            part["custom_flags_trailing_comma"] = True
+    if rng.random() < 0.4:
+        k = rng.choice([1, 2, 3])
+        items = []
+        for i in range(k):
+            items.append(rng.choice([f"pub const LIMIT_{i}: u32 = {i + 7};", f"const NAME_{i}: &'static str = \"n{i}\";",
+                                     f"fn helper_{i}(&self) -> u32 {{ {i} }}", f"pub fn assoc_{i}() -> u8 {{ {i} }}"]))
+        # (slot, item): slot counts handler methods of the contract impl in declaration order
+        prog["impl_between"] = [(rng.randrange(0, 12), it) for it in items]
 
 
 def handlers(prog, kind=None, part=None):
